@@ -2,7 +2,8 @@
 
 `parse(irtext)` -> {symbol: {"kind", "tflag", "size", "str", "uncommon": None | {"pkgpath","mcount","xcount","methods":[(name, ftype symbol)]},
                              "fields": None | [(name, type symbol, offset, tag, embedded)], "imethods": None | [(name, ftype symbol)],
-                             "pkgpath": struct / interface PkgPath_ or None}}
+                             "pkgpath": struct / interface PkgPath_ or None,
+                             "ptrtothis": symbol of the descriptor PtrToThis_ points to | None (null) | "?", "elem": PtrType.Elem symbol | None}}
 Only what ssa/abitype.go writes as constant initialisers is read; nothing is inferred."""
 import re
 
@@ -56,6 +57,8 @@ def parse(text):
     field_re = re.compile(r'%"github\.com/goplus/llgo/runtime/abi\.StructField" \{ ' + STRING + r', ptr getelementptr inbounds \((?:[^()]|\([^()]*\))*?, ptr (' + SYM + r'), i32 0, i32 0\), i64 (\d+), ' + STRING + r', i1 (true|false) \}')
     type_re = re.compile(r'%"github\.com/goplus/llgo/runtime/abi\.Type" \{ i64 (\d+), i64 (\d+), i32 (-?\d+), i8 (\d+), i8 (\d+), i8 (\d+), i8 (\d+), ')
     unc_re = re.compile(r'%"github\.com/goplus/llgo/runtime/abi\.UncommonType" \{ ' + STRING + r', i16 (\d+), i16 (\d+), i32 (\d+) \}')
+    ptr_re = re.compile(r', ptr (null|getelementptr inbounds \([^()]*?, ptr (' + SYM + r'), i32 0, i32 0\)) \}')
+    elem_re = re.compile(r', ptr getelementptr inbounds \([^()]*?, ptr (' + SYM + r'), i32 0, i32 0\) \}')
     slice_re = re.compile(STRING + r', %"github\.com/goplus/llgo/runtime/internal/runtime\.Slice" (?:\{ ptr (' + SYM + r'), i64 (\d+), i64 (\d+) \}|zeroinitializer)')
 
     def table(sym, rx, build):
@@ -78,6 +81,16 @@ def parse(text):
         sm = re.compile(STRING).search(init, tm.end())
         d["str"] = sval(sm, 1) if sm else None
         rest_from = sm.end() if sm else tm.end()
+        # PtrToThis_ *Type follows Str_ and closes the common header; for kind Pointer the PtrType's Elem follows the header.
+        # "ptrtothis": symbol | None (null) | "?" (not read); "elem": symbol | None (not a pointer / not read)
+        d["ptrtothis"], d["elem"] = "?", None
+        pm = ptr_re.match(init, rest_from) if sm else None
+        if pm:
+            d["ptrtothis"] = unq(pm.group(2)) if pm.group(2) else None
+            if d["kind"] == 22:
+                em = elem_re.match(init, pm.end())
+                if em:
+                    d["elem"] = unq(em.group(1))
         um = unc_re.search(init, rest_from)
         if um:
             ms = []
